@@ -213,6 +213,8 @@ class BaseVersion(object):
 
     def _update_full_version(self):
         # type: () -> None
+        if self.__upstream_version is None:
+            raise ValueError("A version must have an upstream_version")
         version = ""
         if self.__epoch is not None:
             version += self.__epoch + ":"
